@@ -16,7 +16,9 @@
   Shape of the stream theorems: ONE initial state `s0 = new(n)`, two runs — over `xs` and over
   the transformed stream — and the second output list is the first with every `X.fin v`
   replaced by `X.fin (c * v)` (resp. `v + d`, resp. unchanged).  Scaling holds for EVERY `c`
-  for SMA/WMA (and `0 ≤ c` for MAD, Minimum, Maximum), not only `c > 0`.  For SD the scaled
+  for SMA/WMA/EMA (and `0 ≤ c` for MAD, Minimum, Maximum), not only `c > 0`.  EMA has no
+  window: it is handled through the exact-field recursion `emaSeqK` (`ema_exact`), which is
+  linear in the stream.  For SD the scaled
   output is stated as `sqrtK (c² · var W)` so that no law about `sqrtK` is needed
   (`sqrtK (c² v) = c · sqrtK v` for `c ≥ 0` is a property of the real square root).
 
@@ -515,7 +517,8 @@ theorem ema_exact (n : Nat) (hn : 0 < n) (xs : List K) :
       runOut ExponentialMovingAverage.next s0 (xs.map X.fin)
         = some (s', (emaSeqK (2 / ((n : K) + 1)) xs).map X.fin) := by
   obtain ⟨s', e⟩ := C02.ema_stream (F := X K) n (xs.map X.fin)
-  refine ⟨_, s', by rw [ExponentialMovingAverage.new_eq]; simp [Nat.ne_of_gt hn], ?_⟩
+  refine ⟨ExponentialMovingAverage.fresh n, s',
+    by rw [ExponentialMovingAverage.new_eq]; simp [Nat.ne_of_gt hn], ?_⟩
   rw [e, alpha_fin, emaSeq_fin]
 
 private theorem emaFromK_scale (α c prev : K) (xs : List K) :
@@ -548,7 +551,7 @@ theorem emaSeqK_shift (α d : K) (xs : List K) :
 
 /-- EMA(c·x) = c·EMA(x), for every `c` -/
 theorem ema_scale (c : K) (n : Nat) (hn : 0 < n) (xs : List K) :
-    ∃ s0 s1 s2 outs, (ExponentialMovingAverage.new n : Res (ExponentialMovingAverage (X K))) = .ok s0 ∧
+    ∃ s0 s1 s2, ∃ outs : List K, (ExponentialMovingAverage.new n : Res (ExponentialMovingAverage (X K))) = .ok s0 ∧
       runOut ExponentialMovingAverage.next s0 (xs.map X.fin) = some (s1, outs.map X.fin) ∧
       runOut ExponentialMovingAverage.next s0 ((xs.map (fun x => c * x)).map X.fin)
         = some (s2, (outs.map (fun v => c * v)).map X.fin) := by
@@ -558,7 +561,7 @@ theorem ema_scale (c : K) (n : Nat) (hn : 0 < n) (xs : List K) :
 
 /-- EMA(x + d) = EMA(x) + d -/
 theorem ema_shift (d : K) (n : Nat) (hn : 0 < n) (xs : List K) :
-    ∃ s0 s1 s2 outs, (ExponentialMovingAverage.new n : Res (ExponentialMovingAverage (X K))) = .ok s0 ∧
+    ∃ s0 s1 s2, ∃ outs : List K, (ExponentialMovingAverage.new n : Res (ExponentialMovingAverage (X K))) = .ok s0 ∧
       runOut ExponentialMovingAverage.next s0 (xs.map X.fin) = some (s1, outs.map X.fin) ∧
       runOut ExponentialMovingAverage.next s0 ((xs.map (fun x => x + d)).map X.fin)
         = some (s2, (outs.map (fun v => v + d)).map X.fin) := by
